@@ -721,6 +721,10 @@ def translator_tie(ctx: "Ctx") -> None:
     with ThreadPoolExecutor(max_workers=8) as ex:
         results = list(ex.map(one, pieces))
     ctx.extra["translator_tie"] = results
+    for r in results:
+        if not r["ok"] and r["advisory"]:
+            print(f"NOTE property={ctx.pid} advisory translator obligation {r['piece']} ({r['source']}) no longer checks: "
+                  f"{str(r.get('reason', ''))[:160]}; the correspondence of this run decides")
     broken = [r for r in results if not r["ok"] and not r["advisory"]]
     if broken and not any(v["found_input"] for v in ctx.violations):
         ctx.violation("the model is no longer provably equal to the translated source (" + ", ".join(r["source"] for r in broken) + ")",
